@@ -69,6 +69,7 @@ func NewShared(size int) func() hl.Parser {
 	opts := []func(*T[uint32]) error{Size[uint32](size)}
 	return func() hl.Parser { return &ad[uint32]{shared: opts} }
 }
+func New8() hl.Parser  { return &ad[uint8]{} }
 func New16() hl.Parser { return &ad[uint16]{} }
 func New64() hl.Parser { return &ad[uint64]{} }
 func NewU() hl.Parser  { return &ad[uint]{} }
@@ -228,11 +229,39 @@ type GramSpec struct {
 	Entries  func(gg *GenGrammar) []EntrySpec
 	// Jobs lists the (entry, args, needed witnesses) to explore for a grammar.
 	Jobs func(g *GenGrammar) []*Job
+	// LongJobs lists the jobs for a grammar of the long-input layer (family.Long). Entries are
+	// those of Entries with the suffix "L" and two leading hole-position parameters.
+	LongJobs func(g *GenGrammar) []*Job
 	// BrokenIsViolation: a variant that does not generate/compile violates the property.
 	BrokenIsViolation    bool
 	RaceReplay           bool // build the native replay drivers with the race detector
 	ValidateEveryGrammar int  // validate sampled paths natively for every k-th grammar
 	Cfg                  symx.Config
+}
+
+// entriesFor / jobsFor: for grammars of the long-input layer every entry gets a twin that
+// switches the harness library to long inputs (concrete filler, two arbitrary runes) first.
+func (spec *GramSpec) entriesFor(gg *GenGrammar) []EntrySpec {
+	es := spec.Entries(gg)
+	if gg.G.Filler == "" {
+		return es
+	}
+	var out []EntrySpec
+	for _, e := range es {
+		out = append(out, EntrySpec{Name: e.Name + "L", Params: "h1, h2 int, " + e.Params,
+			Body: fmt.Sprintf("hl.SetLong(%q, h1, h2)\n\tdefer hl.ClearLong()\n\t%s", gg.G.Filler, e.Body)})
+	}
+	return out
+}
+
+func (spec *GramSpec) jobsFor(gg *GenGrammar) []*Job {
+	if gg.G.Filler == "" {
+		return spec.Jobs(gg)
+	}
+	if spec.LongJobs == nil {
+		return nil
+	}
+	return spec.LongJobs(gg)
 }
 
 func (ws *Workspace) vwDir() string { return filepath.Join(ws.Dir, "vw") }
@@ -297,7 +326,7 @@ func (gg *GenGrammar) writeHarness(spec *GramSpec) error {
 		b.WriteString("// " + line + "\n")
 	}
 	fmt.Fprintf(&b, "var G = %s\n\nconst NSW = %d\nconst HASACT = %v\n\nvar _ *ref.Grammar = G\n\n", gg.G.GoLiteral(), gg.G.NSw, gg.G.NAct > 0)
-	for _, e := range spec.Entries(gg) {
+	for _, e := range spec.entriesFor(gg) {
 		fmt.Fprintf(&b, "func %s(%s) {\n\t%s\n}\n\n", e.Name, e.Params, e.Body)
 	}
 	return os.WriteFile(filepath.Join(dir, "h.go"), []byte(b.String()), 0o644)
@@ -422,13 +451,13 @@ func runGrammarProperty(c *Ctx, fam []*family.Grammar, spec *GramSpec) error {
 			}
 			var entries []string
 			hp := l.Pkgs[gg.Pkg+"/h"]
-			for _, e := range spec.Entries(gg) {
+			for _, e := range spec.entriesFor(gg) {
 				if hp.Func(e.Name) != nil {
 					entries = append(entries, e.Name)
 				}
 			}
 			runners[gg.Pkg+"/h"] = &NativeRunner{Dir: ws.vwDir(), PkgPath: gg.Pkg + "/h", Entries: entries, Race: spec.RaceReplay}
-			for _, j := range spec.Jobs(gg) {
+			for _, j := range spec.jobsFor(gg) {
 				if hp.Func(j.Entry) == nil {
 					continue
 				}
@@ -525,7 +554,7 @@ func replayGrammar(ws *Workspace, prop string, mk func(c *Ctx) ([]*family.Gramma
 	}
 	gg.writeHarness(spec)
 	var entries []string
-	for _, e := range spec.Entries(gg) {
+	for _, e := range spec.entriesFor(gg) {
 		entries = append(entries, e.Name)
 	}
 	return replayInPkg(ws.vwDir(), gg.Pkg+"/h", entries, f)
